@@ -230,7 +230,12 @@ def r3(ctx: Context, prs, sites) -> None:
     sql_txt = " ".join(ast.unparse(s.node).split())
     ok = ".timestamp" in mk and rev and "ORDER BY status_timestamp DESC LIMIT ? OFFSET ?" in sql_txt
     ctx.add("R3", "pagination::newest-first-by-status-timestamp", ok, a.loc(), "" if ok else f"mem key={mk[:50]} reverse={rev}")
-    ok = "[offset:offset + limit]" in ast.unparse(a.node).replace(" ", "").replace("offset:offset+limit", "offset:offset + limit") or "offset:offset+limit" in ast.unparse(a.node).replace(" ", "")
+    # the slice [offset : offset + limit] over the two pagination parameters (whatever they are called)
+    ok = False
+    for n in walk_no_nested(a.node):
+        if isinstance(n, ast.Subscript) and isinstance(n.slice, ast.Slice) and isinstance(n.slice.lower, ast.Name) and n.slice.lower.id in a.params and isinstance(n.slice.upper, ast.BinOp) and isinstance(n.slice.upper.op, ast.Add):
+            names = {x.id for x in ast.walk(n.slice.upper) if isinstance(x, ast.Name)}
+            ok = ok or (n.slice.lower.id in names and len(names & set(a.params)) == 2)
     ctx.add("R3", "pagination::offset-limit-window", ok, a.loc(), "" if ok else "")
     # count filters
     a, s = by[("BaseOrchestrator", "count_invocations")]
